@@ -24,7 +24,19 @@ def run(ctx):
         refine.refine_batch(ctx, ctx.size(120, 1500), force=FORCE, pid=PID, name="trace-refinement(Tree.step vs DemeTree.run)"),
         runs.minimize_slice(ctx, PID, ctx.size(12, 150)),
         runs.monitor_batch(ctx, PID, ctx.size(250, 3000), force=FORCE),
+        # objects shared between levels: a child built from its parent's individual must not write
+        # into it — visible when the levels use different objectives or when a shared budget runs out
+        runs.monitor_batch(ctx, PID, ctx.size(50, 500), salt=29, name="traced-runs-monitor-C02(local-or-population-leaves,per-level-objectives-or-exhausted-budget)", force=_shared_objects),
     ]
+
+
+def _shared_objects(rng):
+    nlev = int(rng.choice([2, 2, 3]))
+    leaf = ["local", "local", "sea", "de", "shade", "cma"]
+    eng = {0: ["sea", "seax", "de", "ded", "shade"], 1: (leaf if nlev == 2 else ["sea", "de", "cma"]), 2: leaf}
+    if rng.random() < 0.6:
+        return {"nlev": nlev, "engines": eng, "shared_problem": False, "level_shift": True, "cutoff": None}
+    return {"nlev": nlev, "engines": eng, "shared_problem": True, "cutoff": int(rng.integers(25, 120)), "gsc": {"kind": "MetaepochLimit", "limit": int(rng.integers(4, 9))}}
 
 
 def search(ctx, broken):
